@@ -349,6 +349,9 @@ func exec(in In) vh.Result {
 		}
 	}
 	res := vh.Result{Term: cf.App("CMulti", cf.List(cases)), Nontrivial: mid >= 3 && (!trace || mm+fm > 0), Hist: hist}
+	if trace {
+		res.Traces = 1
+	}
 	if d := direct.Load(); d != nil {
 		res.Direct = d.(*vh.Direct)
 	}
